@@ -168,7 +168,15 @@ class Sandbox:
             if inject:
                 st += ["-e", "inject=" + inject]
             cmd = st + cmd
-        p = subprocess.run(cmd, stdout=subprocess.PIPE, stderr=subprocess.PIPE, env=self.env(), cwd=self.dir, input=stdin, timeout=timeout)
+        try:
+            p = subprocess.run(cmd, stdout=subprocess.PIPE, stderr=subprocess.PIPE, env=self.env(), cwd=self.dir, input=stdin, timeout=timeout)
+        except subprocess.TimeoutExpired:
+            # the caller decides what a command that does not finish means (it is run again once before that)
+            subprocess.run(["pkill", "-9", "-f", self.top], stdout=subprocess.DEVNULL, stderr=subprocess.DEVNULL)
+            calls = parse_trace(tf) if tf and os.path.exists(tf) else []
+            if tf and os.path.exists(tf):
+                os.unlink(tf)
+            return dict(rc=124, out=b"", err="TIMEOUT after %ds" % timeout, calls=calls, timeout=True)
         calls = []
         if tf:
             calls = parse_trace(tf)
